@@ -45,7 +45,7 @@ func stressMain(args []string) {
 	case "policy":
 		out["problems"] = stressPolicySwap(*rounds)
 	case "options":
-		out["problems"] = append(stressOptions(*rounds, *workers, *seed), stressFIFOLatch(*rounds/3+6)...)
+		out["problems"] = stressOptions(*rounds, *workers, *seed)
 	}
 	b, _ := json.Marshal(out)
 	fmt.Println(string(b))
@@ -521,56 +521,6 @@ func stressDeepEqual(rounds, workers int) []string {
 		case <-finished:
 		case <-time.After(90 * time.Second):
 			return append(problems, fmt.Sprintf("deep-equal round %d: the comparisons did not finish within 90s", round))
-		}
-	}
-	return problems
-}
-
-// stressFIFOLatch: FIFO mode, once switched on, stays on - also when calls that
-// ask for "off" were issued before the "on" call and finish after it.  One
-// goroutine dwells inside Push's critical section (a push policy that takes
-// its time) while several SetFIFO(false) and one SetFIFO(true) are issued.
-func stressFIFOLatch(rounds int) []string {
-	var problems []string
-	for round := 0; round < rounds; round++ {
-		s := stk.And().Push("a")
-		s.SetMutex()
-		entered := make(chan struct{})
-		var once sync.Once
-		s.SetPushPolicy(func(...any) error {
-			once.Do(func() { close(entered) })
-			time.Sleep(4 * time.Millisecond)
-			return nil
-		})
-		var wg sync.WaitGroup
-		wg.Add(1)
-		go func() { defer wg.Done(); defer func() { recover() }(); s.Push("x") }()
-		select {
-		case <-entered:
-		case <-time.After(10 * time.Second):
-			problems = append(problems, fmt.Sprintf("fifo round %d: the push policy was never consulted", round))
-			continue
-		}
-		for k := 0; k < 3+round%3; k++ {
-			wg.Add(1)
-			go func() { defer wg.Done(); defer func() { recover() }(); s.SetFIFO(false) }()
-		}
-		time.Sleep(time.Duration(200*(round%4)) * time.Microsecond)
-		wg.Add(1)
-		go func() { defer wg.Done(); defer func() { recover() }(); s.SetFIFO(true) }()
-		for k := 0; k < 2; k++ {
-			wg.Add(1)
-			go func() { defer wg.Done(); defer func() { recover() }(); s.SetFIFO(false) }()
-		}
-		finished := make(chan bool, 1)
-		go func() { wg.Wait(); finished <- true }()
-		select {
-		case <-finished:
-		case <-time.After(60 * time.Second):
-			return append(problems, fmt.Sprintf("fifo round %d: SetFIFO calls against a Push did not finish within 60s", round))
-		}
-		if !s.IsFIFO() {
-			problems = append(problems, fmt.Sprintf("fifo round %d: SetFIFO(true) returned, yet the stack is not in FIFO mode afterwards (a SetFIFO(false) issued earlier switched it off)", round))
 		}
 	}
 	return problems
